@@ -4,6 +4,7 @@
   on the non-vacuity witness.
 -/
 import RdfModel.Props.C09
+import RdfModel.Props.C09Facts
 open RdfModel RdfModel.RX RdfModel.C09
 
 #print axioms RdfModel.C09.denote_render
@@ -15,6 +16,16 @@ open RdfModel RdfModel.RX RdfModel.C09
 #print axioms RdfModel.C09.ws_nodeList
 #print axioms RdfModel.C09.ws_resKids
 #print axioms RdfModel.C09.ws_collKids
+#print axioms RdfModel.C09.gen_space
+#print axioms RdfModel.C09.gen_locals
+#print axioms RdfModel.C09.gen_forbidden_elements
+#print axioms RdfModel.C09.gen_forbidden_attributes
+#print axioms RdfModel.C09.gen_id_start
+#print axioms RdfModel.C09.gen_id_char
+#print axioms RdfModel.C09.gen_validateID
+#print axioms RdfModel.C09.gen_tokenizer
+#print axioms RdfModel.C09.badNodeName_iff
+#print axioms RdfModel.C09.badPropName_iff
 #print axioms RdfModel.C09.Witness.labelsOK
 #print axioms RdfModel.C09.Witness.g_ok
 #print axioms RdfModel.C09.Witness.plan2_wf
